@@ -249,7 +249,7 @@ def plan(tier, seed):
 
 def finish(acc, tier, seed):
     reasons = []
-    need = 40000 if tier == "quick" else 500000
+    need = 30000 if tier == "quick" else 500000
     if acc.evals < need:
         reasons.append(f"only {acc.evals} classified calls (< {need})")
     if acc.counters.get("steps", 0) < acc.evals * 5:
